@@ -26,6 +26,12 @@ ORDER = ("('acquire_lock', 'splitext', 'join', 'mkstemp', 'fdopen', 'write', 'wr
          "'rename', 'compile', '_load', 'release_lock')")
 ALWAYS = [
     "complete_at_rename()",
+    # the temporary file is created in the cache directory itself: same file system as the final
+    # name, so the rename is atomic
+    "ext_index('mkstemp') == -1 or ext_call_kwarg('mkstemp', 0, 'dir') == self.path",
+    # the only call that produces the final name is os.rename
+    "all(n in %s for n in ext_names())" % repr(tuple(sorted({'acquire_lock', 'release_lock', 'splitext', 'join',
+        'mkstemp', 'fdopen', 'write', 'close', 'remove', 'rename', 'compile', '_load'}))),
     # the lock is released last, whatever happens
     "ext_names()[-1] == 'release_lock'",
     # the final name is only ever produced by renaming the temporary file, after it was closed
@@ -43,10 +49,11 @@ CONTRACTS.append(Contract(
     ML + ".build", params={"self": "rec[%s]" % ML, "source": "str", "filename": "str"},
     inline=["encode_string"],
     ensures=["ext_names() == " + ORDER,
-             # the temporary file lives in the cache directory (same file system: atomic rename)
              "ext_call_arg('rename', 0, 1) == ext_call_result('join', 0)"] + ALWAYS,
-    raises={'OSError': {'ensures': ALWAYS}, 'KeyboardInterrupt': {'ensures': ALWAYS}},
-    ghost={'externals': EXT, 'harness': ('bounded.loader_harness', 'build_crashpoints'),
+    raises={'OSError': {'ensures': ALWAYS}, 'KeyboardInterrupt': {'ensures': ALWAYS},
+            # an exception from a library call the contract does not know is not expected at all
+            },
+    ghost={'externals': EXT, 'open_world': True, 'harness': ('bounded.loader_harness', 'build_crashpoints'),
            'search': {'generator': ('bounded.loader_harness', 'gen_build_cases')}},
     serves=["C15"],
     notes="trace contract; crash-safety follows for every prefix of the trace under the POSIX axioms"))
